@@ -112,6 +112,8 @@ static void weights(void) {
   for (int j = 0; j < 8; ++j) SHIM_MUL_SHIFT[j] = -1;
 #if PROD == 0
   SHIM_MUL_SHIFT[0] = 0;
+#elif PROD == 1 && defined(RANGE_ONLY)
+  /* no product enters the ghost sum in the range-only run */
 #elif PROD == 1
   SHIM_MUL_SHIFT[0] = 0; SHIM_MUL_SHIFT[1] = 32; SHIM_MUL_SHIFT[2] = 32; SHIM_MUL_SHIFT[3] = 64;
 #elif PROD == 2
@@ -144,6 +146,9 @@ void h_avx2_prod(void) {
   const uint64_t acc1 = r - SHIM_MUL_FIN_P[0];
   __CPROVER_assert((wide)acc1 + (((wide)A0) << HH) == SHIM_MUL_SUM, "avx2 a*a: result == acc1 + acc2*(2^h mod q) with acc1 + acc2*2^h == exact sum of the products lo32(x_i)*lo32(y_i)");
   __CPROVER_assert(SHIM_MUL_REC_A[0] == (x[4 * GI + L] & M32) && SHIM_MUL_REC_B[0] == (y[4 * GI + L] & M32), "avx2 a*a: product i is formed from x[i], y[i]");
+#elif PROD == 1 && defined(RANGE_ONLY)
+  /* b*b: the run with the exact 192-bit ghost sum does not finish; this run decides memory safety, no lane addition wraps,
+     the recombination operands fit 32 bits */
 #elif PROD == 1
   const uint64_t* A = SHIM_MUL_FIN_A; const uint64_t* B = SHIM_MUL_FIN_B;
   __CPROVER_assert(B[0] == p.s1h_pow_red[L] && B[1] == p.s2l_pow_red[L] && B[2] == p.s2h_pow_red[L] && B[3] == p.s3l_pow_red[L] && B[4] == p.s3h_pow_red[L] && B[5] == p.s4l_pow_red[L] && B[6] == p.s4h_pow_red[L], "avx2 b*b: recombination multiplies by the table's reduced powers in order");
@@ -178,6 +183,9 @@ void h_avx2_prod(void) {
 #define ELL 3
 #endif
 void REFFN(PTYPE* precomp, const uint64_t ell, q120b* const res, const q120b* const x, const q120c* const y);
+// the reference file's guarded ghost hooks are not observed in this harness
+void spqlios_verif_q120_term(uint64_t i, uint64_t j, uint64_t x, uint64_t y, uint64_t p0, uint64_t p1, uint64_t p2, uint64_t p3) {}
+void spqlios_verif_q120_final(uint64_t j, uint64_t s1, uint64_t s2, uint64_t s3, uint64_t s4) {}
 void h_avx2_eq(void) {
   PTYPE p;
   table(&p);
